@@ -68,6 +68,10 @@ unsafe impl Sync for Session {}
 
 impl Drop for Session {
     fn drop(&mut self) {
+        // A session that already committed or rolled back must not log another outcome for its transaction.
+        if !self.ctx.is_open() {
+            return;
+        }
         let _ = self.abort_transaction();
     }
 }
